@@ -208,14 +208,175 @@ def session_check(ctx, module, theorems, prop, rotations=True, extra=None):
 C11_THEOREMS = ['BinlogVerif.C11.c11_whole_entries', 'BinlogVerif.C11.c11_writer_prop', 'BinlogVerif.C11.c11_byte_counts',
                 'BinlogVerif.C11.c11_byte_counts_reconsume', 'BinlogVerif.C11.c11_consume_stream',
                 'BinlogVerif.C01.c01_pieces_whole_commits']
-C02_THEOREMS = []
+C02_THEOREMS = ['BinlogVerif.C02.c02_exactly_once_in_order', 'BinlogVerif.C02.c02_accepted_is_what_was_logged',
+                'BinlogVerif.C02.c02_delivered_prefix', 'BinlogVerif.C02.c02_delivered_by_next_consume',
+                'BinlogVerif.C02.c02_loss_without_sync', 'BinlogVerif.Generated.session_structure',
+                'BinlogVerif.Generated.lockedMethods_match']
 C03_THEOREMS = ['BinlogVerif.C03.c03_source_before_event', 'BinlogVerif.C03.c03_ids_distinct', 'BinlogVerif.C03.c03_each_source_once',
                 'BinlogVerif.Sess.metaInv_exec']
-C13_THEOREMS = ['BinlogVerif.C13.c13_self_contained', 'BinlogVerif.C13.c13_rotation_writes_metadata']
+C13_THEOREMS = ['BinlogVerif.C13.c13_self_contained', 'BinlogVerif.C13.c13_rotation_writes_metadata',
+                'BinlogVerif.C13.c13_partition', 'BinlogVerif.C13.c13_no_loss_no_dup']
 
 
 def check_c11(ctx): return session_check(ctx, 'BinlogVerif.Props.C11', C11_THEOREMS, 'C11', extra=['BinlogVerif.Props.C01'])
-def check_c02(ctx): return session_check(ctx, 'BinlogVerif.Props.C02', C02_THEOREMS, 'C02')
+def gen_ra_script(rng):
+    """threads: each writer is its own logical thread (id = writer number), thread 0 registers sources, thread 7 consumes
+    with a random staleness policy; the last consume is sequentially consistent and happens after everything"""
+    base = gen_session_script(rng, rotations=False)
+    ops = [o.strip() for o in base.split('|')]
+    head, ops = ops[0], ops[1:]
+    out = []
+    for o in ops:
+        t = o.split(' ')
+        if t[0] in ('cw', 'log', 'dw', 'sid', 'sname'):
+            out.append('T%s %s' % (t[1], o))
+        elif t[0] == 'consume':
+            out.append('T7 consume idx=%s,use=%s,seed=%d' % (rng.choice(['old', 'new', 'rnd', 'rnd']), rng.choice(['new', 'new', 'old', 'rnd']), rng.randrange(1 << 30)))
+        else:
+            out.append('T0 ' + o)
+    # make "destroy right after logging, then a stale consume" frequent
+    if rng.random() < 0.7:
+        out.append('T6 cw 60 %d 0 -' % rng.choice([40, 64, 200]))
+        out.append('T0 src 128 - - - 1 - -')
+        for q in range(rng.choice([1, 2, 3])):
+            out.append('T6 log 60 1 5 %s' % (bytes([60, 0, 0, 0, q, 0, 0, 0]).hex()))
+        out.append('T6 dw 60')
+        out.append('T7 consume idx=%s,use=new,seed=%d' % (rng.choice(['old', 'rnd']), rng.randrange(1 << 30)))
+    out.append('T7 consume')
+    return head + ' | ' + ' | '.join(out)
+
+
+def merge_pieces(seg):
+    """canonical form of a consume segment for the release/acquire stream: the two pieces of a wrapped batch are merged"""
+    if not seg.startswith('consume'):
+        return seg
+    kv = parse_kv(seg)
+    ws = kv.get('writes', '').split(',')
+    merged = []
+    for w in ws:
+        b = bytes.fromhex(w) if w else b''
+        is_ev = len(b) >= 12 and int.from_bytes(b[4:12], 'little') < (1 << 63)
+        if merged and is_ev and merged[-1][1]:
+            merged[-1] = (merged[-1][0] + w, True)
+        else:
+            merged.append((w, is_ev))
+    return 'consume writes=%s bytes=%s total=%s polled=%s removed=%s' % (','.join(m[0] for m in merged), kv.get('bytes'), kv.get('total'), kv.get('polled'), kv.get('removed'))
+
+
+def ra_stream(ctx, n):
+    """real Session/SessionWriter over the release/acquire shim, with stale reads; compared with the L1 model driven by the
+    observations the real consume made (hook); monitored for loss/duplication/reordering"""
+    exe = build_harness('session_ra_harness', link_repo=False)
+    rng = random.Random(ctx.seed * 1000003 + 202)
+    lines = [gen_ra_script(rng) for _ in range(n)]
+    rc, impl, err = run_lines(exe, lines)
+    # second pass: the model, fed with what each real consume observed
+    mlines = []
+    for l, o in zip(lines, impl):
+        ops = [x.strip() for x in l.split('|')]
+        segs = o.split(';')
+        out = [ops[0]]
+        for op, seg in zip(ops[1:], segs):
+            t = op.split(' ')
+            if t[0].startswith('T'):
+                t = t[1:]
+            if t[0] == 'consume':
+                out.append('consume polls=' + parse_kv(seg).get('polls', ''))
+            else:
+                out.append(' '.join(t))
+        mlines.append(' | '.join(out))
+    rc2, model, err2 = run_lines(driver_path(), mlines)
+    mism, stale, fails = [], 0, []
+    for i, l in enumerate(lines):
+        if i >= len(impl) or i >= len(model):
+            mism.append(i); continue
+        a = ';'.join(merge_pieces(x) for x in impl[i].split(';'))
+        b = ';'.join(merge_pieces(x.split(' LOST=')[0]) for x in model[i].split(';'))
+        if a != b:
+            mism.append(i)
+        if ('polls=' in impl[i]) and any(('idx=old' in x or 'idx=rnd' in x) for x in l.split('|')):
+            stale += 1
+        plain = ' | '.join(' '.join(x.strip().split(' ')[1:]) if x.strip().startswith('T') else x.strip() for x in l.split('|'))
+        plain = ' | '.join('consume' if x.strip().startswith('consume') else x.strip() for x in plain.split('|'))
+        f = analyse_final(plain, impl[i])
+        if f:
+            fails.append((i, f))
+    ctx.streams['session_ra'] = {'cases': n, 'impl_rc': rc, 'model_rc': rc2, 'mismatches': len(mism), 'scripts_with_stale_policy': stale,
+                                 'impl_stderr_tail': err[-500:] if rc else ''}
+    return lines, impl, model, mism, fails
+
+
+def analyse_final(line, out):
+    """C02 on the implementation under stale reads: after the last (sequentially consistent, happens-after) consume every accepted
+    event has been delivered exactly once, in order per writer"""
+    ops = [o.strip() for o in line.split('|')][1:]
+    segs = out.split(';')
+    if len(segs) != len(ops):
+        return 'output has %d segments for %d ops' % (len(segs), len(ops))
+    accepted, delivered = {}, {}
+    for op, seg in zip(ops, segs):
+        t = op.split(' ')
+        if t[0] == 'log' and parse_kv(seg).get('ok') == '1':
+            w, seq = struct.unpack('<II', bytes.fromhex(t[4])[:8])
+            accepted.setdefault(w, []).append(seq)
+        elif t[0] == 'consume':
+            for wr in parse_kv(seg).get('writes', '').split(','):
+                es = parse_entries(bytes.fromhex(wr)) if wr else []
+                for p in es or []:
+                    tg = tag_of(p)
+                    if tg is not None and tg < (1 << 63) and len(p) >= 24:
+                        w, seq = struct.unpack('<II', p[16:24])
+                        delivered.setdefault(w, []).append(seq)
+    for w, seqs in accepted.items():
+        if delivered.get(w, []) != seqs:
+            return 'writer %d: accepted %s, delivered %s after the final consume' % (w, seqs, delivered.get(w, []))
+    return None
+
+
+def check_c02(ctx):
+    ok = proof_step(ctx, 'BinlogVerif.Generated.Session', C02_THEOREMS)
+    exe = build_harness('session_harness', link_repo=False)
+    rng = random.Random(ctx.seed * 1000003 + 2)
+    n = cases_count(ctx, 1000, 20000)
+    lines = [gen_session_script(rng, False) for _ in range(n)]
+    impl, model, mism = diff_streams(ctx, 'session_ops', exe, lines)
+    prop_fail, nontrivial = set(), set()
+    for i, l in enumerate(lines):
+        if i >= len(impl):
+            break
+        fails = analyse(l, impl[i])
+        what = fails.get('C02') or fails.get('ALL')
+        if what:
+            prop_fail.add(i)
+            ctx.violation('c02-%s' % hashlib.sha256(l.encode()).hexdigest()[:10], 'C02: %s' % what, {'kind': 'script', 'input_line': l, 'impl': impl[i]})
+        if 'polled=2' in impl[i] or 'polled=3' in impl[i]:
+            nontrivial.add(l)
+    report_corr(ctx, 'session_ops', lines, impl, model, mism, prop_fail)
+    # release/acquire stream
+    rlines, rimpl, rmodel, rmism, rfails = ra_stream(ctx, cases_count(ctx, 1500, 30000))
+    for i, f in rfails[:3]:
+        prop_fail.add(('ra', i))
+        key = 'destroyed-writer-stale-index' if ' dw 60' in rlines[i] and 'writer 60' in f else 'ra-%s' % hashlib.sha256(rlines[i].encode()).hexdigest()[:10]
+        ctx.violation(key, 'C02 (release/acquire execution of the real code): ' + f,
+                      {'kind': 'schedule', 'input_line': rlines[i], 'impl': rimpl[i],
+                       'how_to_read': 'T<k> = logical thread; consume idx=old|rnd = the acquire load of a queue write index may read a stale message; use= the same for shared_ptr::use_count()',
+                       'replay': 'echo "<input_line>" | build/bin/session_ra_harness-*'})
+    for i in rmism[:3]:
+        if ('ra', i) not in prop_fail:
+            ctx.violation('corr-session_ra-%d' % i, 'correspondence session_ra broke: model and implementation disagree on case %d' % i,
+                          {'kind': 'correspondence', 'stream': 'session_ra', 'input_line': rlines[i], 'impl': rimpl[i] if i < len(rimpl) else None,
+                           'model': rmodel[i] if i < len(rmodel) else None, 'broken': 'correspondence stream session_ra / Props.C02'}, found_input=False)
+    for l in rlines:
+        nontrivial.add(l)
+    finish_proof(ctx, ok, bool(prop_fail))
+    ctx.coverage.update({'evaluations': len(lines) + len(rlines), 'distinct_nontrivial': len(nontrivial),
+                         'traces_validated_against_impl': len(lines) - len(mism) + len(rlines) - len(rmism),
+                         'rule': SESSION_RULE + '; plus the same scripts on the real headers over a release/acquire shim (logical threads, loads may '
+                                 'read stale messages by a random per-consume policy, frequent destroy-right-after-log), the L1 model being driven '
+                                 'by what each real channel poll observed'})
+    ctx.samples = [lines[0][:300], rlines[0][:400]]
+    ctx.assumptions.append('C++11 release/acquire as the view-based operational semantics (RC11 without load buffering); interleaving at the granularity of API calls plus arbitrary reads-from')
+    return ctx.finish()
 def check_c03(ctx): return session_check(ctx, 'BinlogVerif.Props.C03', C03_THEOREMS, 'C03')
 def check_c13(ctx): return session_check(ctx, 'BinlogVerif.Props.C13', C13_THEOREMS, 'C13')
 
